@@ -25,8 +25,9 @@ def collision_programs(tier):
                     if tier == "quick" and not collide and not (pos == 1):
                         continue
                     other = [x for x in names if x != shared]
-                    a_names = sorted([shared, "b" + other[0]])
-                    b_names = sorted([shared if collide else shared + "x", "c" + other[1]])
+                    # declared in reverse alphabetical order: the overlap scan relies on the generator sorting the lists
+                    a_names = sorted([shared, "b" + other[0], "y_last"], reverse=True)
+                    b_names = sorted([shared if collide else shared + "x", "c" + other[1], "x_last"], reverse=True)
                     mk = lambda ns: [Method(kind, nm, (Arg("a", "u32"),)) for nm in ns]
                     i0 = Interface(name="If0", module="if0", methods=tuple(mk(b_names)), custom="msg=Empty, query=Empty")
                     if pair == "ci":
